@@ -1358,6 +1358,7 @@ void vm_execute_enumtype_record_to_int(vm * machine, bytecode * code)
     {
         machine->running = VM_EXCEPTION;
         machine->exception = EXCEPT_NIL_POINTER;
+        return;
     }
 
     mem_ptr index_addr = gc_get_vec(machine->collector, record_value, 0);
